@@ -340,6 +340,14 @@ def _map_qiskit_instr_to_pq(
 
             condition = _get_condition_function(clbit_positions[cond[0]], value)
             for inner_instr_qiskit in block:
+                if inner_instr_qiskit.name in ("cz", "cx", "if_else"):
+                    # NOTE: The heralded entangling gates need auxiliary modes, which
+                    # are only allocated for top-level instructions.
+                    raise ValueError(
+                        f"Unsupported instruction '{inner_instr_qiskit.name}' inside "
+                        "a conditional block of the quantum circuit."
+                    )
+
                 # NOTE: The i-th qubit of the block is bound to the i-th qubit of the
                 # enclosing 'if_else' instruction.
                 inner_qubit = block_qubit_indices[
